@@ -98,7 +98,7 @@ class Tr:
       if isinstance(v, int):
         return (('%d%%Z' % v) if v >= 0 else ('(%d)%%Z' % v), 'Z')
       if isinstance(v, float):
-        return ('(vlit %s)' % float_lit(v), 'V')
+        return ('(vlit %s)' % mant_exp(v), 'V')
       fail(n, 'constant')
     if isinstance(n, ast.Name):
       if n.id in env.names:
@@ -586,6 +586,22 @@ class Tr:
     env2.names[name] = (name, t)
     self.seen_types[name] = t
     return 'let %s := %s in\n%s' % (name, c, self.block(rest, env2, tail, in_loop))
+
+
+def mant_exp(v):
+  """A finite binary64 as 'm e' with v = m * 2^e exactly (m an integer)."""
+  import math
+  if v != v or v in (float('inf'), float('-inf')):
+    raise Unsupported('non-finite float literal')
+  m, e = math.frexp(v)
+  m, e = int(m * (1 << 53)), e - 53
+  while m and m % 2 == 0:
+    m //= 2
+    e += 1
+  if m == 0:
+    e = 0
+  z = lambda k: ('%d%%Z' % k) if k >= 0 else ('(%d)%%Z' % k)
+  return '%s %s' % (z(m), z(e))
 
 
 def float_lit(v):
